@@ -7,10 +7,10 @@ import (
 
 // Op is one operation of an actor's program.
 type Op struct {
-	Name string `json:"op"`
-	Arg  int    `json:"arg,omitempty"`
-	Arg2 int    `json:"arg2,omitempty"`
-	Empty bool  `json:"empty,omitempty"` // SetHeader / SendHeader with empty metadata
+	Name  string `json:"op"`
+	Arg   int    `json:"arg,omitempty"`
+	Arg2  int    `json:"arg2,omitempty"`
+	Empty bool   `json:"empty,omitempty"` // SetHeader / SendHeader with empty metadata
 }
 
 // Script is one experiment on one RPC (or Calls concurrent copies of it): the
